@@ -39,6 +39,10 @@ def _work(args):
     sanity = [VC(f"{cname}:sanity:hypotheses-consistent", L.base(ci) , z3.BoolVal(False), {"law": "sanity", "cls": cname}, expect="not-unsat")]
     res = solve.discharge_split(vcs + sanity, timeout_ms=timeout_ms, second_opinion=True)
     fns, hashes = class_hashes(repo, ci)
+    import hashlib
+    hashes = dict(hashes)
+    hashes["labrea/*.py (whole tree: helpers and handlers are inlined)"] = hashlib.sha256(
+        "".join(m.source for _, m in sorted(repo.modules.items())).encode()).hexdigest()[:16]
     plain = [(r.name, r.status, r.seconds, r.backend, r.expect, r.meta, r.detail) for r in res]
     regions = [(ent[0], ent[1]) for ent in L.REGIONS.get(cname, [])]
     return cname, plain, undecided, fns, {"hashes": hashes, "regions": regions, "syntactic": syntactic}
@@ -71,7 +75,7 @@ def witness_fn(tier):
         budget = 150 if tier == "quick" else 1500
         if group.startswith("undecided:"):
             cls = group.split(":", 1)[1].split(".")[0]
-            for law in ("L1", "L2", "L3", "L4a", "L5", "L5d", "L6", "L6v"):
+            for law in ("L1", "L2", "L3", "L4a", "L5", "L5d", "L6", "L6v", "C05"):
                 w = lawsearch.search(cls, law, seed, budget)
                 if w:
                     return w
